@@ -1113,6 +1113,8 @@ func (ex *Exec) instr(in ssa.Instruction) {
 		m := ex.val(i.Map)
 		mt := i.Map.Type().Underlying().(*types.Map)
 		dom, val, ln := vc.mapArrs(mt)
+		// assignment to an entry of a nil map panics
+		ex.panicOblig("nilmap", i.Pos(), isStmt, fmt.Sprintf("(not (= %s 0))", m.T))
 		k, v := ex.val(i.Key).T, ex.val(i.Value).T
 		d0 := fmt.Sprintf("(select %s %s)", h.get(dom), m.T)
 		h.set(ln, fmt.Sprintf("(store %s %s (ite (select %s %s) (select %s %s) (bvadd (select %s %s) (_ bv1 64))))", h.get(ln), m.T, d0, k, h.get(ln), m.T, h.get(ln), m.T))
@@ -2024,7 +2026,7 @@ func (ex *Exec) loopHead(b *ssa.BasicBlock, l *loopInfo, pidx []int, gs []string
 		vc.assume(fmt.Sprintf("(>= %s %s)", a, st.heap.alloc))
 		nh.alloc = a
 	}
-	st = &blockState{heap: nh, guard: st.guard, ghosts: st.ghosts}
+	st = &blockState{heap: nh, guard: st.guard, ghosts: ex.havocLoopGhosts(st.ghosts, l)}
 	ex.cur = st
 	for _, in := range b.Instrs {
 		phi, ok := in.(*ssa.Phi)
@@ -2156,6 +2158,48 @@ func (ex *Exec) loopHead(b *ssa.BasicBlock, l *loopInfo, pidx []int, gs []string
 	}
 }
 
+// havocLoopGhosts: a ghost variable that a call site inside the loop body assigns has an
+// unknown value at the loop head (only the loop invariants constrain it).
+func (ex *Exec) havocLoopGhosts(g map[string]TV, l *loopInfo) map[string]TV {
+	vc := ex.vc
+	var out map[string]TV
+	for _, c := range vc.fc.Clauses {
+		if c.Kind != "ghost" || c.When == "entry" {
+			continue
+		}
+		cur, has := g[c.Name]
+		if !has {
+			continue
+		}
+		assigned := false
+		for bb := range l.body {
+			for _, in := range bb.Instrs {
+				switch i := in.(type) {
+				case ssa.CallInstruction:
+					if calleeBareName(i.Common()) == c.Callee {
+						assigned = true
+					}
+				case *ssa.MapUpdate:
+					if c.Callee == "mapstore" {
+						assigned = true
+					}
+				}
+			}
+		}
+		if !assigned {
+			continue
+		}
+		if out == nil {
+			out = cloneGhosts(g)
+		}
+		out[c.Name] = TV{T: vc.fresh("ghost.loop."+c.Name, vc.sortOf(cur.Ty)), Ty: cur.Ty}
+	}
+	if out == nil {
+		return g
+	}
+	return out
+}
+
 func (ex *Exec) backEdge(p, head *ssa.BasicBlock, l *loopInfo, k int) {
 	vc := ex.vc
 	if ex.pass != 2 {
@@ -2191,6 +2235,9 @@ func (ex *Exec) backEdge(p, head *ssa.BasicBlock, l *loopInfo, k int) {
 		}
 	}
 	env := ex.invEnv(head, ex.out[p].heap, func(phi *ssa.Phi) *Val { return ex.val(phi.Edges[pi]) })
+	for gn, gv := range ex.out[p].ghosts {
+		env.vars[gn] = gv
+	}
 	for _, c := range vc.fc.clauses("invariant") {
 		if c.Loop != l.ordinal && c.Loop != -2 {
 			continue
